@@ -170,9 +170,12 @@ def harness(flavour="base", shared=False, extra_defs=(), tag=""):
         if os.path.exists(outbin):
             return outbin
         for old in os.listdir(libdir):
+            # binaries of older harness sources: a concurrent check may still be running them, so only
+            # remove those that have not been touched for two hours
             if old.startswith("imbmon-%s%s%s-" % (flavour, "-so" if shared else "", tag)) and old != name:
                 try:
-                    os.unlink(os.path.join(libdir, old))
+                    if time.time() - os.path.getmtime(os.path.join(libdir, old)) > 7200:
+                        os.unlink(os.path.join(libdir, old))
                 except OSError:
                     pass
         hd = os.path.join(VERIF, "harness")
